@@ -436,7 +436,7 @@ pub fn run(tier: Tier) -> i32 {
         }
     }
 
-    let attr = Attribution { value: vec!["C03"], panic: vec!["C03"], check_loc: false, structural: false, expect_zero_and: false, configs: if tier == Tier::Quick { vec![CONFIGS[0], CONFIGS[1]] } else { CONFIGS.to_vec() } };
+    let attr = Attribution { value: vec!["C03"], panic: vec!["C03"], check_loc: false, structural: false, expect_zero_and: false, configs: CONFIGS.to_vec() };
     let _ = Config { register: false, dedup: true };
     let blocks: Mutex<BTreeMap<String, (u64, u64, u64, bool)>> = Mutex::new(BTreeMap::new());
     let n_jobs = jobs.len();
